@@ -6,6 +6,8 @@ from symx.proto import (Entropy, setup_hash_axioms, outcome, okind, orders, new_
                         abstract_params, PEER, SIDE_BYTE)
 
 PID = "C06"
+TECHNIQUE = "symbolic execution of finish() with a symbolic side byte and body (abstract group; real groups for reflection); z3 decides 'key only for the peer label and a non-reflected element'"
+LEVEL_NOTE = 'GC contract; asserts enabled'
 EXPLANATION = (
     "finish() of the real SPAKE2_A, SPAKE2_B and SPAKE2_Symmetric classes (fresh, and restored through the real "
     "serialize/from_serialized) is executed on an inbound message whose side byte is one symbolic byte (all 256 values) "
